@@ -11,7 +11,7 @@ import (
 )
 
 func init() {
-	register("C17", "Decides the structural basis of the connection lifecycle in graphql/server.go: every insert into conn.subscriptions is preceded, in the same critical section of c.mu, by a lookup of the same id whose hit branch returns (both handleSubscribe and handleMutate), and in handleSubscribe by the subscription-limit test; Subscribe is logged only after Parse and PrepareQuery succeeded and is followed on every path by the insert; every removal from conn.subscriptions is paired, in the same block, with Rerunner.Stop of the removed runner and SubscriptionLogger.Unsubscribe of that id, and Unsubscribe is logged nowhere else; all accesses to conn.subscriptions hold c.mu; inside rerunner compute closures closeSubscription is only ever started with `go` (it reaches Rerunner.Stop, which needs the r.mu the closure runs under); ServeJSONSocket defers closeSubscriptions before reading. Not decided: exactly-once over all message orders; the stale-close identity race (a late `go closeSubscription(id)` of an old run can hit a new subscription that reused the id).", c17)
+	register("C17", "Decides the structural basis of the connection lifecycle in graphql/server.go: every insert into conn.subscriptions is preceded, in the same critical section of c.mu, by a lookup of the same id whose hit branch returns (both handleSubscribe and handleMutate), and in handleSubscribe by the subscription-limit test; Subscribe is logged only after Parse and PrepareQuery succeeded and is followed on every path by the insert; every removal from conn.subscriptions is paired, in the same block, with Rerunner.Stop of the removed runner and SubscriptionLogger.Unsubscribe of that id, and Unsubscribe is logged nowhere else; all accesses to conn.subscriptions hold c.mu; inside rerunner compute closures closeSubscription is only ever started with `go` (it reaches Rerunner.Stop, which needs the r.mu the closure runs under); ServeJSONSocket defers closeSubscriptions before reading; conn keeps rerunners in exactly one registry, so the duplicate-id test spans subscribe and mutate. Not decided: exactly-once over all message orders; the stale-close identity race (a late `go closeSubscription(id)` of an old run can hit a new subscription that reused the id).", c17)
 	register("C02", "Decides the structural basis of subscription convergence in conn.handleSubscribe's compute closure: diff.Diff is called with the previously sent value (captured `previous`, possibly through ComputationInput.Previous) first and the fresh result second; `previous` is advanced to exactly that fresh result on every path that sends an update and never on an error path, and is not written before the first Diff; when `initial` holds an update is written on every success path (d, or a non-nil empty diff); every envelope written from the handler closures carries the captured id, bound once from in.ID; closeSubscription stops the looked-up runner and removes it in one critical section of c.mu. Delta correctness is C03, re-execution C04/C08, lifecycle C17; the query a subscription or mutation executes is the result of parsing its own message's text with its own variables. Not decided: convergence over histories, middlewares rewriting ComputationInput.Previous, the JavaScript client.", c02)
 	register("C16", "Decides the structural basis of 'a failing resolver fails the query; only sanitised errors reach clients': Executor.Execute returns nil data with every non-nil error and reads the recorded error after scheduler.Run and before serialising; outputNode.Fail prefixes the path (nestPathErrorMulti) and records through errorRecorder.record, which keeps the first error (sync.Once); nestPathError(Multi) return SanitizedError values unchanged and otherwise wrap; errors produced while executing work units reach Fail on a destination of the failing unit; every outEnvelope written to the socket has a Message that is SanitizeError(_), a diff.Diff result, an empty struct or nil - never a value derived from error text - and WriteJSON is only reached through writeOrClose; SanitizeError returns the fixed text unless the top-level error implements SanitizedError; on the initial failure of a subscription exactly one error envelope is written, the subscription is closed and a non-retry error returned, while later failures return RetrySentinelError without writing; the rerunner is started and stored in c.subscriptions within one critical section, so the close fired by a failing first run finds it. Not decided: which of several concurrent failures wins; user-supplied SanitizedError implementations; the HTTP handler (raw err.Error() by design).", c16)
 }
@@ -94,6 +94,9 @@ func c17(c *an.Ctx) {
 	p := c.P
 	c.Check("R-LOCK", "handleSubscribe starts the rerunner and stores it in c.subscriptions within one critical section of c.mu, so the close fired by a failing first run finds it (rule shared with C16)", 2, func(o *an.O) {
 		ruleRunnerRegisteredBeforeItCanClose(c, o)
+	})
+	c.Check("R-WHO", "one registry of running requests per connection: conn keeps rerunners in exactly one map, so the duplicate-id test spans subscribe and mutate and closing an id ends exactly the request registered under it", 1, func(o *an.O) {
+		ruleSingleRunnerRegistry(c, o)
 	})
 	c.Check("R-BOOL", "subscription lifecycle decisions: a subscription ends (closeSubscription) exactly when its first run fails or it is cancelled, a mutation always ends after one run; reruns that fail are retried, not ended (decision tables shared with C16)", 4, func(o *an.O) {
 		ruleHandlerTables(c, o)
